@@ -45,6 +45,9 @@ def impl_line(case):
 
 def event_expr(e):
     n, a = e[0], e[1:]
+    if n == 'er':
+        # the listener adapter's dispatch on the error code (4 = channel endpoint error) is part of the model: Conductor.ev_error
+        return '(ev_error %s %s)' % (z(a[0]), z(a[1]))
     name = {'pr': 'EvPubReady', 'xr': 'EvXPubReady', 'sr': 'EvSubReady', 'os': 'EvOpSuccess', 'er': 'EvError',
             'ai': 'EvAvailImage', 'ui': 'EvUnavailImage', 'cr': 'EvCounterReady', 'uc': 'EvUnavailCounter',
             'ct': 'EvClientTimeout'}[n]
@@ -95,9 +98,19 @@ def model_expr(case, mode):
     return 'run_obs %s %s %s %s %s' % (z(c[0]), z(c[1]), z(c[2]), z(c[3]), ops_expr(case))
 
 
+def _is_chan_err(c):
+    return (not isinstance(c, int) and c[0] == 'app' and c[1] == 'CbErr' and c[2] and not isinstance(c[2][0], int)
+            and c[2][0][0] == 'app' and c[2][0][1] == 'EChannelEndpoint')
+
+
 def normalize(obs):
-    """close_all_resources walks HashMaps: inside one operation a maximal run of consecutive unavailable-image
-    (unavailable-counter) callbacks is put in the order of the registration ids (stable), on both sides."""
+    """The conductor walks HashMaps: inside one operation
+    - a maximal run of consecutive unavailable-counter callbacks is put in the order of the registration ids (stable);
+    - a maximal run of unavailable-image callbacks and ChannelEndpointException error-handler calls (close_all_resources,
+      on_channel_endpoint_error_response: one call per resource on the channel, each followed by the images of that
+      subscription) is put in a canonical order: the error-handler calls first, then the image callbacks in the order of the
+      subscription ids (stable, so the images of one subscription keep their order);
+    on both sides."""
     if isinstance(obs, int) or obs[0] != 'list':
         return obs
     out = []
@@ -107,15 +120,26 @@ def normalize(obs):
             continue
         cbs = item[1][1][1]
         res, i = [], 0
+
+        def name_of(c):
+            return c[1] if (not isinstance(c, int) and c[0] == 'app') else None
+        key = lambda t: t[2][0] if t[2] and isinstance(t[2][0], int) else 0
         while i < len(cbs):
             c = cbs[i]
-            name = c[1] if (not isinstance(c, int) and c[0] == 'app') else None
-            if name in ('CbUnavailImg', 'CbUnavailCtr'):
+            name = name_of(c)
+            if name == 'CbUnavailCtr':
                 j = i
-                while j < len(cbs) and not isinstance(cbs[j], int) and cbs[j][0] == 'app' and cbs[j][1] == name:
+                while j < len(cbs) and name_of(cbs[j]) == name:
                     j += 1
-                run = sorted(cbs[i:j], key=lambda t: t[2][0] if t[2] and isinstance(t[2][0], int) else 0)
-                res.extend(run)
+                res.extend(sorted(cbs[i:j], key=key))
+                i = j
+            elif name == 'CbUnavailImg' or _is_chan_err(c):
+                j = i
+                while j < len(cbs) and (name_of(cbs[j]) == 'CbUnavailImg' or _is_chan_err(cbs[j])):
+                    j += 1
+                run = cbs[i:j]
+                res.extend([t for t in run if _is_chan_err(t)])
+                res.extend(sorted([t for t in run if not _is_chan_err(t)], key=key))
                 i = j
             else:
                 res.append(c)
@@ -214,7 +238,7 @@ class Sim:
         reg = self.regs.get(i)
         if self.closed or reg is None or reg['kind'] != k:
             return
-        if k == 'd':
+        if k == 'd' or reg.get('dead'):
             return
         if reg['obj'] or (reg['state'] == 'ready' and k in 'px'):
             reg['obj'] = True
@@ -229,7 +253,7 @@ class Sim:
         self.emit('d' + k, i)
         reg = self.regs.get(i)
         if reg and reg['kind'] == k and reg['held']:
-            if not self.closed:
+            if not self.closed and not reg.get('dead'):
                 self.next += 1
             del self.regs[i]        # (a publication / counter dropped while the ring is full stays registered with a dead handle)
 
@@ -288,8 +312,17 @@ class Sim:
         if self.closed and n != 'ct':
             return
         want = {'pr': 'p', 'xr': 'x', 'sr': 's', 'cr': 'c', 'os': 'd'}.get(n)
+        if n == 'er' and a[1] == 4:
+            x = ((a[0] + 2 ** 31) % 2 ** 32) - 2 ** 31
+            for g in self.regs.values():
+                if g['kind'] in 'pxs' and g['obj'] and g.get('chstat') == x and not g.get('gone') and not g.get('dead') and (g['kind'] == 's' or g['held']):
+                    g['dead'] = True        # the conductor closed the handle and forgot the registration
+                    g['obj'] = False
+                    g['images'] = []
+            return
         if want and reg and reg['kind'] == want and reg['state'] == 'await' and not reg.get('gone'):
             reg['state'] = 'ready'
+            reg['chstat'] = {'pr': a[-1], 'xr': a[-1], 'sr': a[-1]}.get(n)
             if want in 'sc':
                 reg['obj'] = True
         elif n == 'er' and reg and not reg.get('gone'):
@@ -313,22 +346,41 @@ class Sim:
             self.next += 1
 
     # -- events aimed at registrations
+    def chstat(self):
+        # few distinct channel status indicator ids, so that a channel endpoint error often finds several resources on its channel
+        return self.rng.choice([6, 6, 6, 9, 9, 0, 63, self.rng.randrange(0, 64)])
+
     def ready_event(self, i, k=None):
         r = self.rng
         k = k or self.regs[i]['kind']
         cid = r.randrange(0, 64)
         if k == 'p':
-            return ['pr', i, r.choice([i, i, max(self.c0 + 1, i - 1)]), r.choice([7, -1, 2 ** 31 - 1]), r.randrange(-5, 100), cid, r.randrange(0, 64)]
+            return ['pr', i, r.choice([i, i, max(self.c0 + 1, i - 1)]), r.choice([7, -1, 2 ** 31 - 1]), r.randrange(-5, 100), cid, self.chstat()]
         if k == 'x':
-            return ['xr', i, r.choice([7, 12]), r.randrange(-5, 100), cid, r.randrange(0, 64)]
+            return ['xr', i, r.choice([7, 12]), r.randrange(-5, 100), cid, self.chstat()]
         if k == 's':
-            return ['sr', i, r.randrange(0, 64)]
+            return ['sr', i, self.chstat()]
         if k == 'c':
             return ['cr', i, cid]
         return ['os', i]
 
     def error_event(self, i):
         return ['er', i, self.rng.choice([0, 1, 2, 3, 5, 10, 11, 12, -1, 77])]
+
+    def chan_error_event(self):
+        """ErrorResponse with error code 4: the id is a channel status indicator id (compared as i32 by the conductor)."""
+        r = self.rng
+        live = [g['chstat'] for g in self.regs.values() if g.get('chstat') is not None and not g.get('gone') and not g.get('dead')]
+        q = r.random()
+        if live and q < 0.75:
+            x = r.choice(live)
+        elif q < 0.9:
+            x = self.chstat()
+        else:
+            x = r.choice([-1, 64, 2 ** 31 - 1, self.next, self.c0 + 1])     # also: the id of a registration (not a channel id)
+        if r.random() < 0.15:
+            x += r.choice([2 ** 32, -2 ** 32, 2 ** 40])     # the same channel id as i32
+        return ['er', x, 4]
 
 
 def gen_history(rng, tier, flavour):
@@ -347,6 +399,7 @@ def gen_history(rng, tier, flavour):
         s.hbenv = 1
     n = rng.choice([6, 12, 25, 40, 58])
     kinds = 'ppsscxd' if rng.random() < 0.7 else rng.choice(['p', 's', 'c', 'd', 'x', 'ps'])
+    chan = rng.random() < 0.45      # the driver reports channel endpoint errors (error code 4) in this history
     while len(s.ops) < n:
         r = rng.random()
         pending = s.ids(state=['await'])
@@ -358,7 +411,9 @@ def gen_history(rng, tier, flavour):
         elif r < 0.34:
             # an answer: matching, duplicate, foreign kind, unknown id
             q = rng.random()
-            if pending and q < 0.55:
+            if chan and rng.random() < 0.3:
+                ev = s.chan_error_event()
+            elif pending and q < 0.55:
                 i = rng.choice(pending)
                 ev = s.ready_event(i) if rng.random() < 0.75 else s.error_event(i)
             elif live and q < 0.75:
@@ -398,7 +453,7 @@ def gen_history(rng, tier, flavour):
         elif r < 0.82:
             s.work('w')
         elif r < 0.90:
-            subs = [i for i in s.ids(kind='s') if s.regs[i]['obj'] and not s.regs[i].get('gone')]
+            subs = [i for i in s.ids(kind='s') if (s.regs[i]['obj'] or (s.regs[i].get('dead') and rng.random() < 0.3)) and not s.regs[i].get('gone')]
             q = rng.random()
             if subs and q < 0.5:
                 i = rng.choice(subs)
@@ -525,6 +580,25 @@ def scripted():
     h('heartbeat-slot-reused-after-lapped-timeout', 'hb 1000000; hc 1; tk 501; w; wl; hc 3; tk 501; w; ap 1 1; tk 501; w')
     h('heartbeat-slot-other-client-never-bound', 'hb 1000000; hc 3; tk 501; w; tk 501; w; hc 1; tk 501; w; hc 3; tk 501; w')
     h('client-timeout-foreign', 'hb 1000000; ap 1 1; we ct 77; fp 1; we ct 0; fp 1; we ct 0; w')
+    # channel endpoint errors (ErrorResponse with error code 4; the id is a channel status indicator id, compared as i32)
+    h('chan-error-sub-held-with-images', 'hb 1000000; as 1 1; we sr 1 6; fs 1; we ai 50 1 2 1; we ai 51 1 3 1; we er 6 4; ps 1; fs 1; we ai 52 1 2 1; we ui 50 1; ds 1; fs 1; cl')
+    h('chan-error-sub-cached', 'hb 1000000; as 1 1; we sr 1 6; we ai 50 1 2 1; we er 6 4; fs 1; we ai 51 1 2 1; cl')
+    h('chan-error-sub-zero-images-then-announcement', 'hb 1000000; as 1 1; we sr 1 6; fs 1; we er 6 4; ps 1; fs 1; we ai 50 1 2 1; ps 1; we ui 50 1; we er 6 4; ds 1; cl')
+    h('chan-error-sub-cached-zero-images', 'hb 1000000; as 1 1; we sr 1 6; we er 6 4; fs 1; we ai 50 1 2 1; fs 1; as 1 1; we sr 2 6; fs 2; we ai 51 1 2 2; ps 2')
+    h('chan-error-pub-held-and-never-looked-up', 'hb 1000000; ap 1 1; ap 2 2; we pr 1 1 1 5 3 6; we pr 2 2 2 5 3 6; fp 1; we er 6 4; pp 1; fp 1; fp 2; pp 2; dp 1; dp 2; we er 6 4; fp 2; cl')
+    h('chan-error-several-resources', 'hb 1000000; as 1 1; as 2 2; ap 3 3; ap 4 4; ac 1 2 3; ad 0 3 5; we sr 1 6; we sr 2 6; we pr 3 3 3 5 3 6; we pr 4 4 4 5 3 7; we cr 5 6; we os 6;'
+      'fs 2; fp 3; fp 4; fc 5; we ai 50 1 2 1; we ai 51 1 2 2; we ai 52 1 2 2; we er 6 4; ps 2; pp 3; pp 4; pc 5; fs 1; fs 2; fp 3; fp 4; fc 5; fd 6; we ai 53 1 2 2; we er 6 4; we er 7 4; pp 4; fp 4; cl')
+    h('chan-error-id-truncated-to-i32', 'hb 1000000; as 1 1; ap 2 2; we sr 1 6; we pr 2 2 2 5 3 6; fs 1; fp 2; we er 4294967302 4; fs 1; fp 2; ps 1; pp 2')
+    h('chan-error-negative-and-unknown-ids', 'hb 1000000; as 1 1; we sr 1 6; fs 1; we er -6 4; we er 7 4; we er 1 4; we er 0 4; fs 1; ps 1; as 2 2; we sr 2 -1; fs 2; we er -1 4; fs 2; we er 4294967295 4; fs 1')
+    h('chan-error-awaiting-and-errored-untouched', 'hb 1000000; as 1 1; ap 2 2; as 3 3; we er 3 2; we er 6 4; we er 1 4; fs 1; fp 2; fs 3; we sr 1 6; we pr 2 2 2 5 3 6; fs 1; fp 2')
+    h('chan-error-after-close', 'hb 1000000; as 1 1; we sr 1 6; fs 1; cl; we er 6 4; ps 1; fs 1; ds 1')
+    h('chan-error-then-stall-closes', 'hb 1000000; as 1 1; as 2 2; we sr 1 6; we sr 2 7; fs 1; fs 2; we ai 50 1 2 1; we ai 51 1 2 2; tk 5001; hb 1005001; we er 6 4; ps 1; ps 2; fs 1')
+    h('chan-error-dropped-handles', 'hb 1000000; as 1 1; ap 2 2; we sr 1 6; we pr 2 2 2 5 3 6; fs 1; fp 2; ds 1; dp 2; we er 6 4; fs 1; fp 2')
+    h('chan-error-ring-full', 'hb 1000000; as 1 1; ap 2 2; we sr 1 6; we pr 2 2 2 5 3 6; fs 1; fp 2; rf 1; dp 2; we er 6 4; fp 2; ds 1; rf 0; fs 1; fp 2; ap 1 1')
+    h('chan-error-driver-inactive-drop', 'hb 1000000; ap 1 1; we pr 1 1 1 5 3 6; fp 1; we er 6 4; tk 10001; w; dp 1; fp 1')
+    h('error-code-4-vs-others-same-id', 'hb 1000000; as 6 6; we sr 1 1; fs 1; we er 1 3; fs 1; we er 1 4; fs 1; ps 1; we er 1 5; fs 1')
+    if has_find_excl_hook():
+        h('chan-error-xpub', 'hb 1000000; ax 1 1; ax 2 2; ax 3 3; we xr 1 1 5 3 6; we xr 2 2 5 3 6; we xr 3 3 5 3 7; fx 1; fx 3; we er 6 4; px 1; fx 1; fx 2; fx 3; px 3; dx 1; we er 6 4; fx 2; cl')
     if has_find_excl_hook():
         # exclusive publications looked up / peeked at / dropped through the hook find_exclusive_publication_for_verif
         h('xpub-timeout-vs-notready', 'hb 1000000; ax 1 1; fx 1; tk 10000; fx 1; tk 1; fx 1; we xr 1 1 5 3 4; fx 1')
